@@ -344,6 +344,16 @@ theorem C09_request_order_pattern_independent (o₁ o₂ : Options) (items : Lis
   · have hr' : it.useInsteadOf = false := by simpa using hr
     rw [C09_names_requested_without_files o₁ it h₁ f₁ hr', C09_names_requested_without_files o₂ it h₂ f₂ hr']
 
+/-- hence the number every anonymous type gets from the root filter's requests (`_bindgen_ty_N`) is the same for any two
+allow-lists without file patterns -/
+theorem C09_numbering_pattern_independent (o₁ o₂ : Options) (items : List ItemInfo) (x : Nat)
+    (h₁ : (o₁.types.isEmpty && o₁.functions.isEmpty && o₁.vars.isEmpty && o₁.files.isEmpty && o₁.items.isEmpty) = false)
+    (h₂ : (o₂.types.isEmpty && o₂.functions.isEmpty && o₂.vars.isEmpty && o₂.files.isEmpty && o₂.items.isEmpty) = false)
+    (f₁ : o₁.files.isEmpty = true) (f₂ : o₂.files.isEmpty = true) :
+    localId ((items.filter (nameRequestedByRootFilter o₁)).map (·.id)) x =
+      localId ((items.filter (nameRequestedByRootFilter o₂)).map (·.id)) x := by
+  rw [C09_request_order_pattern_independent o₁ o₂ items h₁ h₂ f₁ f₂]
+
 /-- **source obligation**: the closure takes its steps in the modelled order and computes the name as an
 unconditional statement between the file test and the pattern tests (a name computed lazily, only when
 some pattern set is non-empty, would make the numbering depend on the patterns) -/
